@@ -46,6 +46,7 @@ package types
 // hash, code hash) of the proof; there is exactly one storage proof, for the expected slot; it is checked under that
 // same storage hash at keccak(slot); and the proven value, RLP-decoded and left-padded, is the expected 32 bytes
 // verif:func verifyMerkleProof
+//@ nopanic
 //@ callsite VerifyProof [roots-and-keys] (ncalls("VerifyProof") == 0 ==> rootHash == common.BytesToHash(consensusState.Root) && key == crypto.Keccak256(common.FromHex(bscProof.Address))) && (ncalls("VerifyProof") == 1 ==> rootHash == common.HexToHash(bscProof.StorageHash) && len(bscProof.StorageProof) == 1 && key == crypto.Keccak256(common.HexToHash(bscProof.StorageProof[0].Key).Bytes()))
 //@ callsite EncodeToBytes [account-of-the-proof] as(val, *ProofAccount).Storage == common.HexToHash(bscProof.StorageHash) && as(val, *ProofAccount).Codehash == common.HexToHash(bscProof.CodeHash) && as(val, *ProofAccount).Nonce == common.HexToHash(bscProof.Nonce).Big() && as(val, *ProofAccount).Balance == common.HexToHash(bscProof.Balance).Big()
 //@ callsite checkProofResult [proven-value-is-the-commitment] ncalls("VerifyProof") == 2 && dollar_result == callres("VerifyProof", 0, 2) && value == commitment
